@@ -101,6 +101,8 @@ def canon_msg(m, opaque=()):
     fs = ";".join(("S?|S?" if i in opaque else pgncorr.canon(f.value) + "|" + pgncorr.canon(f.raw_value)) + "|" + pgncorr.opt_hex(f.unit_of_measurement)
                   for i, f in enumerate(m.fields))
     hk = "N" if m.hash is None else "h" + m.hash
+    if m.hash is not None and any(m.fields[i].part_of_primary_key for i in opaque if i < len(m.fields)):
+        hk = "*"        # the key contains text the model does not decode (S?): the digest cannot be compared
     return f"msg {harness.hx(m.id.encode())} {m.source} {m.destination} {m.priority} iso={canon_iso(m.source_iso_name)} hk={hk} {fs}"
 
 
@@ -116,7 +118,10 @@ class DecSuite(common.Suite):
     def run(self):
         super().run()
         # re-compare after mapping the model's hash key to its digest
-        self.disagreements = [d for d in self.disagreements if post_model(d["model"]) != d["implementation"]]
+        def norm(d):
+            r = post_model(d["model"])
+            return re.sub(r"hk=\S+", "hk=*", r) if " hk=* " in d["implementation"] else r
+        self.disagreements = [d for d in self.disagreements if norm(d) != d["implementation"]]
         return self
 
 
